@@ -419,6 +419,10 @@ Theorem C16_parse_shape_w_erase_eq_partial : forall sh x, ints_plain sh x = true
 Proof. exact parse_shape_w_erase_eq_partial. Qed.
 Theorem C16_parse_shape_w_complete : forall sh x ps, parse_shape sh x = Ok ps -> parse_shape_w sh x = Val (map embed_param ps).
 Proof. exact parse_shape_w_complete. Qed.
+(* "the same immediates": the Python values determine the model's parameters among the results of one shape *)
+Theorem C16_parse_shape_embed_inj : forall sh x x' ps ps', parse_shape sh x = Ok ps -> parse_shape sh x' = Ok ps' ->
+  map embed_param ps = map embed_param ps' -> ps = ps'.
+Proof. exact parse_shape_embed_inj. Qed.
 (* _parse_int / _is_int translated with exception classes are the functions of Gen/LineGen.v *)
 Theorem C16_parse_int_x_gen_raising : forall x, parse_int_x_gen x = raising ValueError (parse_int_gen x).
 Proof. exact parse_int_x_gen_raising. Qed.
@@ -462,6 +466,7 @@ Print Assumptions C16_apply_rule_backed.
 Print Assumptions C16_parse_shape_w_eq_partial.
 Print Assumptions C16_parse_shape_w_erase_eq_partial.
 Print Assumptions C16_parse_shape_w_complete.
+Print Assumptions C16_parse_shape_embed_inj.
 Print Assumptions C16_parse_int_x_gen_raising.
 Print Assumptions C16_parse_transaction_field_gen_stack_eq.
 Print Assumptions C16_parse_transaction_field_gen_eq_partial.
